@@ -193,6 +193,22 @@ class Ctx:
             self.broken.append(("coq-props", "coqc Props/%s.v failed: %s" % (self.pid, (out + err)[-1500:])))
             return False
         self.discharged = list(names)
+        if self.tier == "thorough" and os.environ.get("VERIF_NO_COQCHK") != "1":
+            # independent re-check of the compiled Props file and everything it depends on
+            lock = open(os.path.join(COQ, ".buildlock"), "w")
+            fcntl.flock(lock, fcntl.LOCK_SH)
+            try:
+                rc2, o2, e2 = self.run(["coqchk", "-silent", "-o", "-Q", ".", "Verif", "Verif.Props.%s" % self.pid], cwd=COQ, timeout=3000)
+            finally:
+                fcntl.flock(lock, fcntl.LOCK_UN)
+                lock.close()
+            txt2 = o2 + e2
+            m2 = re.search(r"\* Axioms:\s*(.*?)\n\s*\n\s*\* Constants", txt2, re.S)
+            self.extra["coqchk"] = {"rc": rc2, "axioms": (m2.group(1).strip() if m2 else "?")[:2000]}
+            if rc2 != 0:
+                self.broken.append(("coqchk", "coqchk Verif.Props.%s failed: %s" % (self.pid, txt2[-1200:])))
+            else:
+                self.trusted.append("coqchk -o re-checked Props/%s.vo and its dependencies; axioms: %s" % (self.pid, self.extra["coqchk"]["axioms"][:300]))
         ax = []
         closed = out.count("Closed under the global context")
         for blk in re.split(r"\n(?=Axioms:)", out):
